@@ -192,6 +192,53 @@ def mem_streams(tier, rng, ctx, focus=None):
     return sts
 
 
+def repeat_histories():
+    """a traversal-based call, a change inside the tree it covered, and the same call again (an implementation that remembers or
+    short-cuts on the state of the ARGUMENT alone gets the second call wrong), then every owner / mode / content is read back"""
+    hs = []
+    tree = [op("mkdir_p", "/d/s"), op("mkfile", "/d/f"), op("write_all", "/d/s/x", b"x")]
+    calls = [op("chown", "/d", 5, 7), op("chown", "/", 5, 7), "chown_b:%s:gid=7" % hx("/d"), "chown_b:%s:norecurse,uid=5" % hx("/d"),
+             op("chmod", "/d", 0o750), op("chmod", "/", 0o700), "chmod_b:%s:files=384:" % hx("/d"), "chmod_b:%s::%s" % (hx("/d"), hx("a:go-rwx")),
+             "chmod_b:%s:dirs=448:" % hx("/d"), op("copy", "/d", "/e"), "copy_b:%s:%s:all=448" % (hx("/d"), hx("/e")), op("remove_all", "/d/s"),
+             op("all_paths", "/d"), "entries:%s:sort" % hx("/d")]
+    changes = [[op("mkfile", "/d/g")], [op("mkdir_p", "/d/s/t")], [op("mkfile", "/d/s/h")], [op("symlink", "/d/l", "/d/f")], [op("write_all", "/d/f", b"new")],
+               [op("mkdir_p", "/d/n/m"), op("mkfile", "/d/n/m/k")], [op("remove", "/d/f")], [op("move_p", "/d/s", "/d/r")], [op("chown", "/d/f", 1, 2)],
+               [op("chmod", "/d/s", 0o711)]]
+    probes = []
+    for q in ["/d", "/d/f", "/d/g", "/d/s", "/d/s/x", "/d/s/t", "/d/s/h", "/d/l", "/d/n/m/k", "/d/r", "/e", "/e/f", "/e/g", "/e/s/x", "/e/d/f", "/"]:
+        probes += [op("owner", q), op("mode", q)]
+    probes += [op("all_paths", "/")]
+    for c in calls:
+        for ch in changes:
+            hs.append("\t".join(["hist", "m", envspec(MEM_ENV)] + tree + [c] + ch + [c] + probes))
+            hs.append("\t".join(["hist", "m", envspec(MEM_ENV)] + tree + [c, c] + ch + [c] + probes))
+    return hs
+
+
+def stale_handle_histories(tier):
+    """a write / append handle that outlives its file: the path is removed (or moved away) and possibly re-created as something
+    else before the handle is flushed or dropped"""
+    hs = []
+    opens = ["open_w:%s" % hx("/f"), "open_a:%s" % hx("/f")]
+    pre_writes = [[], ["hwrite:0:%s" % b"AB".hex()], ["hwrite:0:%s" % b"AB".hex(), "hflush:0"]]
+    displace = [[op("remove", "/f")], [op("remove_all", "/f")], [op("move_p", "/f", "/g")], []]
+    recreate = [[], [op("mkdir_p", "/f")], [op("mkdir_p", "/f/sub")], [op("symlink", "/f", "/t")], [op("symlink", "/f", "/d")], [op("mkfile", "/f")],
+                [op("write_all", "/f", b"new")], [op("mkdir_p", "/f"), op("remove", "/f")]]
+    late = [[], ["hwrite:0:%s" % b"CD".hex()]]
+    ends = [["hflush:0"], ["hdrop:0"], ["hflush:0", "hdrop:0"]]
+    probes = [op("read_all", "/f"), op("is_dir", "/f"), op("is_file", "/f"), op("exists", "/f"), op("read_all", "/g"), op("remove", "/f"), op("read_all", "/f")]
+    for o in opens:
+        for pw in pre_writes:
+            for dsp in displace:
+                for rc in recreate:
+                    for lt in late:
+                        for en in ends:
+                            if not dsp and rc and rc[0] != op("write_all", "/f", b"new"):
+                                continue     # re-creating over an existing file is the ordinary (already covered) case
+                            hs.append("\t".join(["hist", "h", envspec(MEM_ENV), op("mkdir_p", "/d"), op("mkfile", "/t"), o] + pw + dsp + rc + lt + en + probes))
+    return hs
+
+
 def wf_judge_query(line, impl_out):
     # the extracted WF checker on the implementation's own final state
     if "POISONED" in impl_out or "PANIC" in impl_out or "\t#" not in impl_out:
@@ -201,6 +248,9 @@ def wf_judge_query(line, impl_out):
 
 def c03_streams(tier, rng, ctx):
     sts = mem_streams(tier, rng, ctx)
+    sts.append(Stream("stale-handles", "mirror", stale_handle_histories(tier), impl_env=dict(MEM_ENV), exhaustive=True,
+                      rule="a write / append handle that outlives its file (removed, moved away, re-created as a directory, link or new file) and is then "
+                           "written, flushed or dropped: results and complete state vs the mirror, WF checker on the implementation's state"))
     for st in sts:
         st.judge_query = wf_judge_query
         st.judge = lambda l, o: ("PANIC" in o or "POISONED" in o or "CRASH" in o)
@@ -483,6 +533,23 @@ def c06_streams(tier, rng, ctx):
     hl.append("\t".join(["hist", "h", envspec(MEM_ENV), "open_a:%s" % hx("/f"), op("append_all", "/f", b"x"), "hdrop:0", op("read_all", "/f")]))
     sts.append(Stream("c06-handles", "mirror", hl, impl_env=dict(MEM_ENV), judge=lambda l, o: True,
                       rule="write / append handles opened, written, flushed and dropped at every point, interleaved with write_all / append_all / remove on the same file"))
+    sts.append(Stream("c06-stale-handles", "mirror", stale_handle_histories(tier), impl_env=dict(MEM_ENV), judge=lambda l, o: True, exhaustive=True,
+                      rule="a write / append handle that outlives its file (removed, moved away, re-created as a directory, link or new file): what read_all returns afterwards"))
+    # the same content laws on the real filesystem: files of different lengths overwritten, appended, copied over each other and moved, on both backends side by side
+    import c_wrap
+    xs = []
+    contents = [b"", b"x", b"longer content\n", "é\nsecond\n".encode()]
+    for a in contents:
+        for b in contents:
+            base = [op("mkdir_p", "/d"), op("write_all", "/f1", a), op("write_all", "/d/f2", b)]
+            for act in [[op("copy", "/f1", "/d/f2")], [op("copy", "/d/f2", "/f1")], [op("write_all", "/f1", b"w")], [op("write_all", "/d/f2", b"")],
+                        [op("append_all", "/f1", b"+")], [op("write_lines", "/f1", ["1", "2"])], [op("append_line", "/d/f2", "t")], [op("move_p", "/f1", "/d/f2")],
+                        [op("copy", "/f1", "/d/f2"), op("write_all", "/f1", b"changed")], [op("copy", "/f1", "/n"), op("append_all", "/n", b"!")],
+                        [op("write_lines", "/d/f2", ["only"]), op("copy", "/d/f2", "/f1")], [op("copy", "/f1", "/d")]]:
+                xs.append("\t".join(["hist", "x", envspec(MEM_ENV)] + base + act +
+                                    [op("read_all", "/f1"), op("read_all", "/d/f2"), op("read_all", "/n"), op("read_all", "/d/f1"), op("read_lines", "/f1"), op("read_lines", "/d/f2")]))
+    sts.append(Stream("c06-both-backends", "pycheck", xs, impl_env=c_wrap.sandbox_env("c06"), pycheck=c_wrap.x_eq, exhaustive=True,
+                      rule="files of different lengths overwritten, appended, copied over each other and moved, then read back: Memfs and Stdfs (sandbox) side by side, same results and same tree"))
     sts.append(Stream("c06-interleavings", "mirror", il, impl_env=dict(MEM_ENV), judge=lambda l, o: True,
                       rule="all sequences of %d write/append/line/copy/move/remove calls over three files, then read_all and read_lines of each" % n))
     return sts
@@ -561,6 +628,10 @@ def c01_streams(tier, rng, ctx):
         for q in ["/a", "/b", "/c/d", "../x"]:
             finals += [op("move_p", p, q), op("symlink", p, q)]
     sts += frame_streams(tier, rng, ctx, finals, [("failed-call-frame", frames.failed_call_frame)], "c01f", depth_q=2, maxs_q=250)
+    sts.append(Stream("repeat-after-change", "mirror", repeat_histories(), impl_env=dict(MEM_ENV), exhaustive=True, canon=hist_canon, canon_line=failed_traversal_canon,
+                      judge=lambda l, o: True,
+                      rule="a traversal-based call (chown, chmod, copy, remove_all, listings), a change inside the tree it covered, the same call again, then every "
+                           "owner / mode read back and the complete state compared"))
     return sts
 
 
@@ -933,6 +1004,9 @@ def c11_tree_streams(tier, rng, ctx):
                     "(independent Python statement), type bits kept, links and untargeted entries untouched, nothing but modes (chmod) / owners (chown) changes, malformed expression => error and no change"),
         Stream("exec-readonly-agree", "pycheck", qs, impl_env=env, pycheck=exec_agree, exhaustive=True,
                rule="is_exec = mode() & 0o111 != 0 and is_readonly = mode() & 0o222 == 0 after chmod to each of the 512 rwx values and special bits, for a file and a directory"),
+        Stream("repeat-after-change", "mirror", [h for h in repeat_histories() if "chown" in h.split("\t")[6] or "chmod" in h.split("\t")[6]], impl_env=env, exhaustive=True,
+               canon=hist_canon, canon_line=failed_traversal_canon, judge=lambda l, o: True,
+               rule="chown / chmod, a change inside the tree, the same call again: every owner / mode read back and the complete state vs the mirror"),
     ]
 
 
